@@ -38,6 +38,7 @@ type Node struct {
 	W       string   `json:"w,omitempty"`
 	E       string   `json:"e,omitempty"`
 	Tr      string   `json:"tr,omitempty"`
+	Sp      bool     `json:"sp,omitempty"` // formatted text whose value keeps a trailing space
 	After   string   `json:"after,omitempty"`
 	Name    string   `json:"name,omitempty"`
 	Attrs   []Attr   `json:"attrs,omitempty"`
@@ -95,7 +96,7 @@ func ParseProgram(line []byte) (Program, error) {
 // Values of the abstract identifiers.
 var (
 	// ExprValues are what env.E(i) returns: no whitespace, but markup metacharacters.
-	ExprValues = map[string]string{"E1": `V1<&>`, "E2": `V2"'=`, "M1": `M1&v`, "K1": "cls1"}
+	ExprValues = map[string]string{"E1": `V1<&>`, "E2": `V2"'=`, "M1": `M1&v`, "K1": "cls1", "K12": "cls1 cls2"}
 	// ConstSpelled is how a constant attribute value id is written in the source (double-quoted form);
 	// ConstDecoded is the value the attribute denotes.
 	ConstDecoded = map[string]string{"k1": "v1", "k2": "a&b<c", "k3": `q"q`, "k4": "x&lt;y&#39;"}
@@ -184,6 +185,12 @@ func (p *printer) attrs(as []Attr, depth int) {
 			} else {
 				fmt.Fprintf(&p.sb, "%sclass={ env.K(%s) }", sep, num(a.E))
 			}
+		case "class2":
+			if p.v == 1 {
+				fmt.Fprintf(&p.sb, "%sclass={env.K(1), env.K(2)}", sep)
+			} else {
+				fmt.Fprintf(&p.sb, "%sclass={ env.K(1), env.K(2) }", sep)
+			}
 		case "spread":
 			if p.v == 1 {
 				fmt.Fprintf(&p.sb, "%s{env.M(%s)...}", sep, num(a.M))
@@ -223,16 +230,42 @@ func (p *printer) attrs1(a Attr) {
 }
 
 func (p *printer) nodes(ns []Node, depth int) {
-	for _, n := range ns {
+	for i, n := range ns {
 		p.node(n, depth)
+		// templ's parsers for `{ ... }` nodes swallow leading SPACES (openBraceWithOptionalPadding), so spaces
+		// between a node without trailing-space information and a `{` would not be a whitespace node:
+		// write a tab, the class (horizontal) is what the abstract program fixes.
+		if i+1 < len(ns) && (n.K == "slot" || n.K == "hcomment" || n.K == "raw") && n.After == "h" {
+			switch ns[i+1].K {
+			case "slot", "expr", "gocode":
+				if p.v != 2 {
+					p.sb.WriteString("\t")
+				}
+			}
+		}
 	}
 }
 
 func (p *printer) node(n Node, depth int) {
 	switch n.K {
 	case "text":
+		// a text's value runs up to the next tag, brace or line break and keeps its trailing spaces verbatim,
+		// so the spelling variants do not vary the whitespace that belongs to the value
 		p.sb.WriteString(n.W)
-		p.ws(n.Tr, depth)
+		switch {
+		case n.Tr == "h":
+			p.sb.WriteString(" ")
+		case n.Tr == "v" && p.v == 2:
+			if n.Sp {
+				p.sb.WriteString(" ")
+			}
+			p.sb.WriteString("\n\n" + strings.Repeat("  ", depth))
+		default:
+			if n.Sp {
+				p.sb.WriteString(" ")
+			}
+			p.ws(n.Tr, depth)
+		}
 	case "expr":
 		p.sb.WriteString(p.expr(n.E))
 		p.ws(n.Tr, depth)
@@ -322,7 +355,12 @@ func (p *printer) node(n Node, depth int) {
 		p.ws(n.After, depth)
 	case "gcomment":
 		p.sb.WriteString("// gc")
-		p.ws("v", depth)
+		if p.v == 2 {
+			// the comment runs to the end of the line: no space in front of the line break
+			p.sb.WriteString("\n\n" + strings.Repeat("  ", depth))
+		} else {
+			p.ws("v", depth)
+		}
 	case "raw":
 		p.sb.WriteString("<" + n.Name + ">" + RawContents[n.Name] + "</" + n.Name + ">")
 		p.ws(n.After, depth)
